@@ -54,7 +54,7 @@ theorem apply_slide_right_w (basis : Array W) (p : Pos) (x y : Nat) (hx : x + 1 
   · unfold Pos.apply
     simp [Facts.mtSlideRight, Facts.mtSlideLeft, Facts.mtSlideUp, Facts.mtSlideDown, Facts.mtPass, Facts.mtPlaceFlat,
       Facts.mtPlaceStanding, Facts.mtPlaceCapstone,
-      hw, h2, hx', hy', hxn, hyn, hidx, elems_one, hown, htop, hsz, hh1, slideLoop, slideStep, hidx2, hb1, hb2, hb3, hb4,
+      hw, h2, hx', hy', hxn, hyn, hidx, elems_one, hown, htop, hsz, hh1, slideLoop, slideStep, dispatch, openingRule, slideFrom, liftFrom, dropOn, enterSquare, Pos.setStack, hidx2, hb1, hb2, hb3, hb4,
       c1, c2, bind, Except.bind]
     apply finish_exists
     intro wg bg hwg hbg
@@ -63,7 +63,7 @@ theorem apply_slide_right_w (basis : Array W) (p : Pos) (x y : Nat) (hx : x + 1 
     · unfold Pos.apply
       simp [Facts.mtSlideRight, Facts.mtSlideLeft, Facts.mtSlideUp, Facts.mtSlideDown, Facts.mtPass, Facts.mtPlaceFlat,
         Facts.mtPlaceStanding, Facts.mtPlaceCapstone,
-        hw, h2, hx', hy', hxn, hyn, hidx, elems_one, hown, htop, hsz, hh1, hh0, hb, slideLoop, slideStep, hidx2, hb1, hb2,
+        hw, h2, hx', hy', hxn, hyn, hidx, elems_one, hown, htop, hsz, hh1, hh0, hb, slideLoop, slideStep, dispatch, openingRule, slideFrom, liftFrom, dropOn, enterSquare, Pos.setStack, hidx2, hb1, hb2,
         hb3, hb4, c1, c2, bind, Except.bind]
       apply finish_exists
       intro wg bg hwg hbg
@@ -71,7 +71,7 @@ theorem apply_slide_right_w (basis : Array W) (p : Pos) (x y : Nat) (hx : x + 1 
     · unfold Pos.apply
       simp [Facts.mtSlideRight, Facts.mtSlideLeft, Facts.mtSlideUp, Facts.mtSlideDown, Facts.mtPass, Facts.mtPlaceFlat,
         Facts.mtPlaceStanding, Facts.mtPlaceCapstone,
-        hw, h2, hx', hy', hxn, hyn, hidx, elems_one, hown, htop, hsz, hh1, hh0, hb, slideLoop, slideStep, hidx2, hb1, hb2,
+        hw, h2, hx', hy', hxn, hyn, hidx, elems_one, hown, htop, hsz, hh1, hh0, hb, slideLoop, slideStep, dispatch, openingRule, slideFrom, liftFrom, dropOn, enterSquare, Pos.setStack, hidx2, hb1, hb2,
         hb3, hb4, c1, c2, bind, Except.bind]
       apply finish_exists
       intro wg bg hwg hbg
@@ -124,7 +124,7 @@ theorem apply_slide_left_w (basis : Array W) (p : Pos) (x y : Nat) (hx0' : 1 ≤
   · unfold Pos.apply
     simp [Facts.mtSlideRight, Facts.mtSlideLeft, Facts.mtSlideUp, Facts.mtSlideDown, Facts.mtPass, Facts.mtPlaceFlat,
       Facts.mtPlaceStanding, Facts.mtPlaceCapstone,
-      hw, h2, hx', hy', hxn, hyn, hidx, elems_one, hown, htop, hsz, hh1, slideLoop, slideStep, hidx2, hb1, hb2, hb3, hb4,
+      hw, h2, hx', hy', hxn, hyn, hidx, elems_one, hown, htop, hsz, hh1, slideLoop, slideStep, dispatch, openingRule, slideFrom, liftFrom, dropOn, enterSquare, Pos.setStack, hidx2, hb1, hb2, hb3, hb4,
       c1, c2, bind, Except.bind]
     apply finish_exists
     intro wg bg hwg hbg
@@ -133,7 +133,7 @@ theorem apply_slide_left_w (basis : Array W) (p : Pos) (x y : Nat) (hx0' : 1 ≤
     · unfold Pos.apply
       simp [Facts.mtSlideRight, Facts.mtSlideLeft, Facts.mtSlideUp, Facts.mtSlideDown, Facts.mtPass, Facts.mtPlaceFlat,
         Facts.mtPlaceStanding, Facts.mtPlaceCapstone,
-        hw, h2, hx', hy', hxn, hyn, hidx, elems_one, hown, htop, hsz, hh1, hh0, hb, slideLoop, slideStep, hidx2, hb1, hb2,
+        hw, h2, hx', hy', hxn, hyn, hidx, elems_one, hown, htop, hsz, hh1, hh0, hb, slideLoop, slideStep, dispatch, openingRule, slideFrom, liftFrom, dropOn, enterSquare, Pos.setStack, hidx2, hb1, hb2,
         hb3, hb4, c1, c2, bind, Except.bind]
       apply finish_exists
       intro wg bg hwg hbg
@@ -141,7 +141,7 @@ theorem apply_slide_left_w (basis : Array W) (p : Pos) (x y : Nat) (hx0' : 1 ≤
     · unfold Pos.apply
       simp [Facts.mtSlideRight, Facts.mtSlideLeft, Facts.mtSlideUp, Facts.mtSlideDown, Facts.mtPass, Facts.mtPlaceFlat,
         Facts.mtPlaceStanding, Facts.mtPlaceCapstone,
-        hw, h2, hx', hy', hxn, hyn, hidx, elems_one, hown, htop, hsz, hh1, hh0, hb, slideLoop, slideStep, hidx2, hb1, hb2,
+        hw, h2, hx', hy', hxn, hyn, hidx, elems_one, hown, htop, hsz, hh1, hh0, hb, slideLoop, slideStep, dispatch, openingRule, slideFrom, liftFrom, dropOn, enterSquare, Pos.setStack, hidx2, hb1, hb2,
         hb3, hb4, c1, c2, bind, Except.bind]
       apply finish_exists
       intro wg bg hwg hbg
@@ -195,7 +195,7 @@ theorem apply_slide_up_w (basis : Array W) (p : Pos) (x y : Nat) (hx : x < p.cfg
   · unfold Pos.apply
     simp [Facts.mtSlideRight, Facts.mtSlideLeft, Facts.mtSlideUp, Facts.mtSlideDown, Facts.mtPass, Facts.mtPlaceFlat,
       Facts.mtPlaceStanding, Facts.mtPlaceCapstone,
-      hw, h2, hx', hy', hxn, hyn, hidx, elems_one, hown, htop, hsz, hh1, slideLoop, slideStep, hidx2, hb1, hb2, hb3, hb4,
+      hw, h2, hx', hy', hxn, hyn, hidx, elems_one, hown, htop, hsz, hh1, slideLoop, slideStep, dispatch, openingRule, slideFrom, liftFrom, dropOn, enterSquare, Pos.setStack, hidx2, hb1, hb2, hb3, hb4,
       c1, c2, bind, Except.bind]
     apply finish_exists
     intro wg bg hwg hbg
@@ -204,7 +204,7 @@ theorem apply_slide_up_w (basis : Array W) (p : Pos) (x y : Nat) (hx : x < p.cfg
     · unfold Pos.apply
       simp [Facts.mtSlideRight, Facts.mtSlideLeft, Facts.mtSlideUp, Facts.mtSlideDown, Facts.mtPass, Facts.mtPlaceFlat,
         Facts.mtPlaceStanding, Facts.mtPlaceCapstone,
-        hw, h2, hx', hy', hxn, hyn, hidx, elems_one, hown, htop, hsz, hh1, hh0, hb, slideLoop, slideStep, hidx2, hb1, hb2,
+        hw, h2, hx', hy', hxn, hyn, hidx, elems_one, hown, htop, hsz, hh1, hh0, hb, slideLoop, slideStep, dispatch, openingRule, slideFrom, liftFrom, dropOn, enterSquare, Pos.setStack, hidx2, hb1, hb2,
         hb3, hb4, c1, c2, bind, Except.bind]
       apply finish_exists
       intro wg bg hwg hbg
@@ -212,7 +212,7 @@ theorem apply_slide_up_w (basis : Array W) (p : Pos) (x y : Nat) (hx : x < p.cfg
     · unfold Pos.apply
       simp [Facts.mtSlideRight, Facts.mtSlideLeft, Facts.mtSlideUp, Facts.mtSlideDown, Facts.mtPass, Facts.mtPlaceFlat,
         Facts.mtPlaceStanding, Facts.mtPlaceCapstone,
-        hw, h2, hx', hy', hxn, hyn, hidx, elems_one, hown, htop, hsz, hh1, hh0, hb, slideLoop, slideStep, hidx2, hb1, hb2,
+        hw, h2, hx', hy', hxn, hyn, hidx, elems_one, hown, htop, hsz, hh1, hh0, hb, slideLoop, slideStep, dispatch, openingRule, slideFrom, liftFrom, dropOn, enterSquare, Pos.setStack, hidx2, hb1, hb2,
         hb3, hb4, c1, c2, bind, Except.bind]
       apply finish_exists
       intro wg bg hwg hbg
@@ -267,7 +267,7 @@ theorem apply_slide_down_w (basis : Array W) (p : Pos) (x y : Nat) (hx : x < p.c
   · unfold Pos.apply
     simp [Facts.mtSlideRight, Facts.mtSlideLeft, Facts.mtSlideUp, Facts.mtSlideDown, Facts.mtPass, Facts.mtPlaceFlat,
       Facts.mtPlaceStanding, Facts.mtPlaceCapstone,
-      hw, h2, hx', hy', hxn, hyn, hidx, elems_one, hown, htop, hsz, hh1, slideLoop, slideStep, hidx2, hb1, hb2, hb3, hb4,
+      hw, h2, hx', hy', hxn, hyn, hidx, elems_one, hown, htop, hsz, hh1, slideLoop, slideStep, dispatch, openingRule, slideFrom, liftFrom, dropOn, enterSquare, Pos.setStack, hidx2, hb1, hb2, hb3, hb4,
       c1, c2, bind, Except.bind]
     apply finish_exists
     intro wg bg hwg hbg
@@ -276,7 +276,7 @@ theorem apply_slide_down_w (basis : Array W) (p : Pos) (x y : Nat) (hx : x < p.c
     · unfold Pos.apply
       simp [Facts.mtSlideRight, Facts.mtSlideLeft, Facts.mtSlideUp, Facts.mtSlideDown, Facts.mtPass, Facts.mtPlaceFlat,
         Facts.mtPlaceStanding, Facts.mtPlaceCapstone,
-        hw, h2, hx', hy', hxn, hyn, hidx, elems_one, hown, htop, hsz, hh1, hh0, hb, slideLoop, slideStep, hidx2, hb1, hb2,
+        hw, h2, hx', hy', hxn, hyn, hidx, elems_one, hown, htop, hsz, hh1, hh0, hb, slideLoop, slideStep, dispatch, openingRule, slideFrom, liftFrom, dropOn, enterSquare, Pos.setStack, hidx2, hb1, hb2,
         hb3, hb4, c1, c2, bind, Except.bind]
       apply finish_exists
       intro wg bg hwg hbg
@@ -284,7 +284,7 @@ theorem apply_slide_down_w (basis : Array W) (p : Pos) (x y : Nat) (hx : x < p.c
     · unfold Pos.apply
       simp [Facts.mtSlideRight, Facts.mtSlideLeft, Facts.mtSlideUp, Facts.mtSlideDown, Facts.mtPass, Facts.mtPlaceFlat,
         Facts.mtPlaceStanding, Facts.mtPlaceCapstone,
-        hw, h2, hx', hy', hxn, hyn, hidx, elems_one, hown, htop, hsz, hh1, hh0, hb, slideLoop, slideStep, hidx2, hb1, hb2,
+        hw, h2, hx', hy', hxn, hyn, hidx, elems_one, hown, htop, hsz, hh1, hh0, hb, slideLoop, slideStep, dispatch, openingRule, slideFrom, liftFrom, dropOn, enterSquare, Pos.setStack, hidx2, hb1, hb2,
         hb3, hb4, c1, c2, bind, Except.bind]
       apply finish_exists
       intro wg bg hwg hbg
